@@ -35,7 +35,15 @@ func (tcpDispatch) OnSessionCreate(s pi.IClientSession) {
 	tcpMu.Lock()
 	w := tcpCur
 	tcpMu.Unlock()
-	k := &hconn{tok: 1, tcp: true, rExited: true}
+	// the owning service is busy: scheduler.Post inside OnSessionCreate would block
+	atomic.AddInt32(&w.entered, 1)
+	w.gateMu.Lock()
+	g := w.gateCh
+	w.gateMu.Unlock()
+	if g != nil {
+		<-g
+	}
+	k := &hconn{tcp: true, rExited: true}
 	k.sess = s.(*session.ClientSession)
 	ci := &connImpl{k: k, next: w.simpl}
 	tcpImps.Store(s, ci)
@@ -74,7 +82,7 @@ func (w *world) tcp(v, n int64) {
 		n = 0
 	}
 	startTcp()
-	w.tcpNew = make(chan *hconn, 1)
+	w.tcpNew = make(chan *hconn, 1024)
 	tcpMu.Lock()
 	tcpCur = w
 	tcpMu.Unlock()
@@ -91,9 +99,11 @@ func (w *world) tcp(v, n int64) {
 		cl.Close()
 		return
 	}
+	k.tok = 1
 	w.conns[1] = k
 	w.order = append(w.order, 1)
 	k.client = cl
+	w.clients = append(w.clients, cl)
 	var got int64
 	go func() { // the client reads whatever the server writes, until the server closes
 		buf := make([]byte, 4096)
@@ -144,5 +154,111 @@ func (w *world) tcp(v, n int64) {
 	w.waitFor(closed)
 	// the peer sees the server's close (or closed itself)
 	w.waitFor(func() bool { return atomic.LoadInt32(&k.tcpEOF) == 1 })
+	drain()
+}
+
+func (w *world) openGate() {
+	w.gateMu.Lock()
+	if w.gateCh != nil {
+		close(w.gateCh)
+		w.gateCh = nil
+	}
+	w.gateMu.Unlock()
+}
+
+// burst: Model.burst_script on the real acceptor.  The owning service is busy (the first
+// OnSessionCreate parks StartAcceptor's loop), n clients connect one after the other (so the
+// k-th accepted connection is the k-th client), connChan fills up, the accept loop parks;
+// then the service catches up.  Every client then talks (its message carries its own number:
+// the session it arrives on must be the one created k-th) and closes.
+func (w *world) burst(n int64) {
+	if n > 400 {
+		n = 400
+	}
+	if n < 0 {
+		n = 0
+	}
+	startTcp()
+	w.tcpNew = make(chan *hconn, 1024)
+	w.gateCh = make(chan struct{})
+	tcpMu.Lock()
+	tcpCur = w
+	tcpMu.Unlock()
+	type cli struct {
+		c   net.Conn
+		got int64
+		eof int32
+	}
+	clis := make([]*cli, 0, n)
+	for i := int64(1); i <= n; i++ {
+		w.order = append(w.order, i)
+		c, err := net.Dial("tcp", tcpAcc.GetAddr())
+		if err != nil {
+			w.hang = true
+			return
+		}
+		x := &cli{c: c}
+		clis = append(clis, x)
+		w.clients = append(w.clients, c)
+		go func() {
+			buf := make([]byte, 4096)
+			for {
+				m, err := x.c.Read(buf)
+				atomic.AddInt64(&x.got, int64(m))
+				if err != nil {
+					atomic.StoreInt32(&x.eof, 1)
+					return
+				}
+			}
+		}()
+	}
+	if n > 0 {
+		// the hand-over queue is as full as it gets; give the accept loop the time to take the
+		// next connection (and park on the full queue)
+		fill := int(n - 1)
+		if fill > 99 {
+			fill = 99
+		}
+		w.waitFor(func() bool {
+			return atomic.LoadInt32(&w.entered) >= 1 && len(tcpAcc.GetConnChan()) >= fill
+		})
+		time.Sleep(30 * time.Millisecond)
+	}
+	w.openGate()
+	for i := int64(1); i <= n && !w.hang; i++ {
+		select {
+		case k := <-w.tcpNew:
+			k.tok = i
+			k.client = clis[i-1].c
+			w.conns[i] = k
+		case <-time.After(watchdog):
+			w.hang = true
+		}
+	}
+	drain := func() {
+		for w.frontOne() {
+		}
+	}
+	drain()
+	wr := func(c net.Conn, p any) {
+		b, _ := w.bytesOf(hx.AsTerm(p))
+		c.Write(b)
+	}
+	for i := int64(1); i <= n && !w.hang; i++ {
+		k, x := w.conns[i], clis[i-1]
+		wr(x.c, "PHandshake")
+		w.waitFor(func() bool { return atomic.LoadInt64(&x.got) > 0 })
+		wr(x.c, "PAck")
+		w.waitFor(func() bool { return k.sess.GetStatus() == session.StatusWorking })
+		wr(x.c, hx.C("PData", i))
+		w.waitFor(func() bool { return atomic.LoadInt32(&k.posted) >= 1 })
+	}
+	drain()
+	for i := int64(1); i <= n && !w.hang; i++ {
+		k, x := w.conns[i], clis[i-1]
+		x.c.Close()
+		w.waitFor(func() bool { return atomic.LoadInt32(&k.closeCb) > 0 })
+		atomic.StoreInt32(&k.tcpEOF, 1) // the client closed this one itself
+	}
 	drain()
 }
